@@ -45,7 +45,28 @@ def h_reorder(ctx, case):
     return 'ok'
 
 
+def _valid_taxonomies():
+    """the whole run on a taxonomy with an inner node that has no
+    children (accepted by the validator): mapped without error, outputs
+    as for any other taxonomy (harness body of C15)"""
+    from harness import C15
+    from harness import stagechecks as SC
+    return Harness('run_mapping_childless_inner_node', C15.h_outputs,
+                   setup=SC.setup, cases=[{'names': True, 'childless': True}],
+                   funcs=['from_specified_markers.run_mapping',
+                          'score_utils.read_precomputed_stats',
+                          'matching.get_leaf_means',
+                          'marker_cache_v2.create_marker_cache_from_'
+                          'specified_markers'],
+                   stubs=['multiprocessing -> scheduler model'],
+                   bounds='three-level taxonomy with a class that has no '
+                          'subclass; flatten / drop of each level / none; '
+                          '1 or 7 iterations; 0-2 runners-up; 1-2 workers',
+                   expect_reach=['mapped'])
+
+
 HARNESSES = [
+    _valid_taxonomies(),
     Harness('level_loop_paths', h_paths, setup=LL.setup, cases=C03.QUICK,
             thorough_cases=C03.THOROUGH, funcs=C03.FUNCS, stubs=C03.STUBS,
             assumptions=C03.ASSUME, classify=C03.classify,
